@@ -41,3 +41,14 @@ func (R *Repository) VerifStore(identifier string) crlstore.CRLStore {
 	}
 	return entry.CRLStore
 }
+
+// VerifWrapStore replaces the live store of an entry by wrap(store) (fault injection).
+func (R *Repository) VerifWrapStore(identifier string, wrap func(crlstore.CRLStore) crlstore.CRLStore) {
+	entry := R.getEntrySync(identifier)
+	if entry == nil {
+		return
+	}
+	entry.entryLock.Lock()
+	defer entry.entryLock.Unlock()
+	entry.CRLStore = wrap(entry.CRLStore)
+}
